@@ -112,7 +112,7 @@ SchedStep(st, fr) ==
          IF st.now < tk.fur THEN st
          ELSE IF tk.kind = "repint" THEN      \* interval_task
            LET fin == Fin(st, tk.obs) IN
-           IF fin = 2 THEN Fault(st, "reentry")
+           IF fin = 2 THEN Busy(st)
            ELSE IF fin = 1 THEN Push(st, <<F1("taskdone", k)>>)
            ELSE Push(st, <<CallN(tk.obs, I(tk.seq)), F1("tick2", k)>>)
          ELSE IF tk.kind = "urep" THEN        \* harness repeating task: runs, asks to continue while seq < 2
@@ -120,7 +120,7 @@ SchedStep(st, fr) ==
            ELSE Push(st, <<Fr("ran", k, "", I(tk.seq), 0), F1("taskdone", k)>>)
          ELSE                                 \* emit_buffer / emit_count_buffer
            LET fin == Fin(st, tk.obs) IN
-           IF fin = 2 THEN Fault(st, "reentry")
+           IF fin = 2 THEN Busy(st)
            ELSE IF fin = 1 THEN Push(st, <<F1("taskdone", k)>>)
            ELSE Push(st, <<Acq(tk.obs), Body(tk.obs, "flush", U), Rel(tk.obs), F1("tick2", k)>>)
     [] fr.f = "tick2" ->         \* seq += 1; a fresh period timer relative to NOW; loop
@@ -129,7 +129,7 @@ SchedStep(st, fr) ==
                          !.timerlog = Append(@, st.tasks[k].p)], <<F1("tick", k)>>)
     [] fr.f = "streamstep" ->    \* StreamObserverFuture::poll: drain what the stream has, end on None / Err
          LET k == fr.n tk == st.tasks[k] q == st.streams[tk.x] fin == Fin(st, tk.obs) IN
-         IF fin = 2 THEN Fault(st, "reentry")
+         IF fin = 2 THEN Busy(st)
          ELSE IF fin = 1 THEN Push(st, <<F1("taskdone", k)>>)          \* nobody wants further items: retire
          ELSE IF q = <<>> THEN st
          ELSE LET m == Head(q)
@@ -148,7 +148,7 @@ SchedStep(st, fr) ==
     [] fr.f = "thrnext2" ->      \* ThrottleObserver::next after the trailing value was stored; nd.n = the handle cell
          LET n == fr.n nd == st.nodes[n] hc == st.nodes[nd.n]
              c == IF RHeld(hc) THEN 2 ELSE IF ~hc.f THEN 1 ELSE Closed(st, hc.n) IN
-         IF c = 2 THEN Fault(st, "reentry")
+         IF c = 2 THEN Busy(st)
          ELSE IF c = 0 THEN st                       \* a window is open
          ELSE LET d == IF nd.a > 0 THEN nd.a ELSE (W(fr.v) % 2) + 1       \* duration_selector
                   st1 == SpawnOnce(st, "trail", d, nd.d, nd.c, 0, "", U)
